@@ -83,10 +83,7 @@ func vC06check(m Map, safe bool, indent bool) {
 
 // string contents: <, >, &, backslashes, quotes, control characters, literal < text
 func H_C06_roundtrip() {
-	n, nk := 3, 1
-	if vTier() == 1 {
-		n, nk = 4, 2
-	}
+	n, nk := vP("text", 3, 4), vP("key", 1, 2)
 	k := "k"
 	if vChoose(2) == 1 {
 		k = vNondetJSONText(nk)
@@ -97,10 +94,7 @@ func H_C06_roundtrip() {
 
 // shapes: nested maps, lists, numbers, booleans, nulls
 func H_C06_shapes() {
-	s := vJSpec{depth: 2, width: 2, innerMap: 1, innerList: 2, scalars: "senb", strAlpha: "a<", attrs: false}
-	if vTier() == 1 {
-		s = vJSpec{depth: 3, width: 2, innerMap: 2, innerList: 2, scalars: "senbf", strAlpha: "a<\"", attrs: false}
-	}
+	s := vJSpec{depth: vP("depth", 2, 3), width: vP("width", 2, 2), innerMap: vP("map", 1, 2), innerList: vP("list", 2, 2), scalars: []string{"senb", "senbf"}[vP("rich", 0, 1)], strAlpha: []string{"a<", "a<\""}[vP("rich", 0, 1)], attrs: false}
 	n := vChoose(s.width + 1)
 	m := make(map[string]interface{}, n)
 	for i := 0; i < n; i++ {
